@@ -168,16 +168,19 @@ def parse_unit(text, W):
     sizes = [None, None]
     names = ["inp", "out"]
     # intermediate buffers are thread-local statics (F27): one copy per thread, not on the stack
-    decl_re = re.compile(r"\tstatic __thread " + re.escape(T) + r" ([A-Za-z_][A-Za-z_0-9]*)\[(\d+)\];")
+    # (the storage class of every declaration is recorded: C16 and C11 decide what they require of it)
+    decl_re = re.compile(r"\t(static __thread |static |)" + re.escape(T) + r" ([A-Za-z_][A-Za-z_0-9]*)\[(\d+)\];")
+    storages = []
     while i < len(lines):
         m = decl_re.fullmatch(lines[i])
         if not m:
             break
-        if m.group(1) in bufs:
-            raise ParseError("array declared twice: " + m.group(1))
-        bufs[m.group(1)] = len(sizes)
-        names.append(m.group(1))
-        sizes.append(int(m.group(2)))
+        if m.group(2) in bufs:
+            raise ParseError("array declared twice: " + m.group(2))
+        bufs[m.group(2)] = len(sizes)
+        names.append(m.group(2))
+        sizes.append(int(m.group(3)))
+        storages.append({"static __thread ": "ThreadLocal", "static ": "SharedStatic", "": "Automatic"}[m.group(1)])
         i += 1
     locbuf = len(sizes)
     locals_ = {}
@@ -242,7 +245,7 @@ def parse_unit(text, W):
     if rest.strip():
         holes = parse_wrapper(rest, W)
     return {"sizes": sizes, "body": body, "holes": holes, "names": names, "n_locals": len(locals_),
-            "stmt_lines": stmt_lines}
+            "stmt_lines": stmt_lines, "storages": storages}
 
 
 WRAPPER = """
